@@ -7,9 +7,11 @@ package main
 
 import (
 	"context"
+	"errors"
 	"fmt"
 	"io"
 	"log"
+	"math"
 	"sort"
 	"strings"
 
@@ -183,7 +185,7 @@ func tycTerm(fc *validate.FieldConstraints) (string, *validate.FieldConstraints)
 				return "COther", nil
 			}
 		}
-		return fmt.Sprintf("(CStr %s %s %s %s)", coqOptU64(s.MinLen), coqOptU64(s.MaxLen), coqOptStr(s.Pattern), vh.BoolTerm(uuid)),
+		return fmt.Sprintf("(CStr %s %s %s %s)", coqOptU64(s.MinLen), coqOptU64(s.MaxLen), optRunes(s.Pattern), vh.BoolTerm(uuid)),
 			&validate.FieldConstraints{Type: &validate.FieldConstraints_String_{String_: r}}
 	case *validate.FieldConstraints_Bytes:
 		return fmt.Sprintf("(CBytes %s %s)", coqOptU64(t.Bytes.MinLen), coqOptU64(t.Bytes.MaxLen)),
@@ -198,13 +200,52 @@ func tycTerm(fc *validate.FieldConstraints) (string, *validate.FieldConstraints)
 		return fmt.Sprintf("(CEnum %s %s %s)", vh.BoolTerm(*t.Enum.DefinedOnly), zlist(t.Enum.In), zlist(t.Enum.NotIn)),
 			&validate.FieldConstraints{Type: &validate.FieldConstraints_Enum{Enum: &validate.EnumRules{DefinedOnly: t.Enum.DefinedOnly, In: t.Enum.In, NotIn: t.Enum.NotIn}}}
 	case *validate.FieldConstraints_Timestamp:
-		return "CTimestamp", &validate.FieldConstraints{Type: &validate.FieldConstraints_Timestamp{Timestamp: &validate.TimestampRules{}}}
+		ub, lb := "NoUb", "NoLb"
+		r := &validate.TimestampRules{}
+		secs := func(ts interface {
+			GetSeconds() int64
+			GetNanos() int32
+		}) (int64, bool) {
+			return ts.GetSeconds(), ts.GetNanos() == 0
+		}
+		ok := true
+		switch b := t.Timestamp.GetLessThan().(type) {
+		case *validate.TimestampRules_Lt:
+			s, o := secs(b.Lt)
+			ok = ok && o
+			ub = fmt.Sprintf("(Lt (%d)%%Z)", s)
+			r.LessThan = &validate.TimestampRules_Lt{Lt: b.Lt}
+		case *validate.TimestampRules_Lte:
+			s, o := secs(b.Lte)
+			ok = ok && o
+			ub = fmt.Sprintf("(Lte (%d)%%Z)", s)
+			r.LessThan = &validate.TimestampRules_Lte{Lte: b.Lte}
+		}
+		switch b := t.Timestamp.GetGreaterThan().(type) {
+		case *validate.TimestampRules_Gt:
+			s, o := secs(b.Gt)
+			ok = ok && o
+			lb = fmt.Sprintf("(Gt (%d)%%Z)", s)
+			r.GreaterThan = &validate.TimestampRules_Gt{Gt: b.Gt}
+		case *validate.TimestampRules_Gte:
+			s, o := secs(b.Gte)
+			ok = ok && o
+			lb = fmt.Sprintf("(Gte (%d)%%Z)", s)
+			r.GreaterThan = &validate.TimestampRules_Gte{Gte: b.Gte}
+		}
+		if !ok {
+			return "COther", nil
+		}
+		return fmt.Sprintf("(CTimestamp %s %s)", ub, lb), &validate.FieldConstraints{Type: &validate.FieldConstraints_Timestamp{Timestamp: r}}
 	case *validate.FieldConstraints_Map:
 		mr := t.Map
 		values := "None"
 		r := &validate.MapRules{MinPairs: mr.MinPairs, MaxPairs: mr.MaxPairs}
 		if mr.Values != nil {
 			it, back := tycTerm(mr.Values)
+			if it == "" && back != nil {
+				it = "CEmpty" // a FieldConstraints without a type
+			}
 			if it == "" || back == nil || mr.Values.Required != nil {
 				return "COther", nil
 			}
@@ -219,6 +260,9 @@ func tycTerm(fc *validate.FieldConstraints) (string, *validate.FieldConstraints)
 		r := &validate.RepeatedRules{MinItems: rr.MinItems, MaxItems: rr.MaxItems, Unique: rr.Unique}
 		if rr.Items != nil {
 			it, back := tycTerm(rr.Items)
+			if it == "" && back != nil {
+				it = "CEmpty" // a FieldConstraints without a type
+			}
 			if it == "" || back == nil || rr.Items.Required != nil {
 				return "COther", nil
 			}
@@ -297,7 +341,26 @@ func extTerm(fd protoreflect.FieldDescriptor) string {
 	case *ext_j5pb.FieldOptions_Timestamp:
 		term, back = "XTimestamp", &ext_j5pb.FieldOptions{Type: &ext_j5pb.FieldOptions_Timestamp{Timestamp: &ext_j5pb.TimestampField{}}}
 	case *ext_j5pb.FieldOptions_Key:
-		term, back = "XKey", &ext_j5pb.FieldOptions{Type: &ext_j5pb.FieldOptions_Key{Key: &ext_j5pb.KeyField{}}}
+		kf := &ext_j5pb.KeyField{}
+		f := "None"
+		switch kt := t.Key.Type.(type) {
+		case *ext_j5pb.KeyField_Pattern:
+			f = "(Some (KCustom " + vh.RunesTerm(kt.Pattern) + "))"
+			kf.Type = &ext_j5pb.KeyField_Pattern{Pattern: kt.Pattern}
+		case *ext_j5pb.KeyField_Format_:
+			switch kt.Format {
+			case ext_j5pb.KeyField_FORMAT_UNSPECIFIED:
+				f = "(Some KInformal)"
+			case ext_j5pb.KeyField_FORMAT_UUID:
+				f = "(Some KUuid)"
+			case ext_j5pb.KeyField_FORMAT_ID62:
+				f = "(Some KId62)"
+			default:
+				return "(Some XOther)"
+			}
+			kf.Type = &ext_j5pb.KeyField_Format_{Format: kt.Format}
+		}
+		term, back = "(XKey "+f+")", &ext_j5pb.FieldOptions{Type: &ext_j5pb.FieldOptions_Key{Key: kf}}
 	case *ext_j5pb.FieldOptions_Any:
 		term = fmt.Sprintf("(XAny %s %s)", vh.BoolTerm(t.Any.OnlyDefined), strList(t.Any.Types))
 		back = &ext_j5pb.FieldOptions{Type: &ext_j5pb.FieldOptions_Any{Any: &ext_j5pb.AnyField{OnlyDefined: t.Any.OnlyDefined, Types: t.Any.Types}}}
@@ -519,8 +582,8 @@ func declaredComment(fd protoreflect.Descriptor) string {
 }
 
 func foutTerm(fd protoreflect.FieldDescriptor) string {
-	return fmt.Sprintf("(FO %s %d %s %s %s %s %s %s %s %s %s)",
-		vh.BytesTerm(fd.JSONName()), fd.Number(), kindTerm(fd),
+	return fmt.Sprintf("(FO %s %s %d %s %s %s %s %s %s %s %s %s)",
+		vh.BytesTerm(fd.JSONName()), vh.BytesTerm(string(fd.Name())), fd.Number(), kindTerm(fd),
 		vh.BoolTerm(fd.IsList() || fd.IsMap()), vh.BoolTerm(fd.HasOptionalKeyword()), vh.BoolTerm(fd.HasPresence()),
 		constraintTerm(fd), extTerm(fd), listTerm(fd), keyTerm(fd), vh.BytesTerm(declaredComment(fd)))
 }
@@ -528,11 +591,12 @@ func foutTerm(fd protoreflect.FieldDescriptor) string {
 // ---------------------------------------------------------------- validation
 
 type Value struct {
-	Kind  string // int str bytes bool enum msg
-	I     int64
+	Kind  string // int str bytes bool enum float msg
+	I     int64  // msg: the content id (0 = empty message; equal ids = equal messages)
 	U     uint64 // for uint64 beyond int64
 	S     string
 	B     bool
+	F     float64 // float: the value (already rounded to float32 for FLOAT32 fields)
 	IsU64 bool
 }
 
@@ -560,8 +624,10 @@ func (v Value) Coq() string {
 		return "(VBool " + vh.BoolTerm(v.B) + ")"
 	case "enum":
 		return fmt.Sprintf("(VEnum (%d)%%Z)", v.I)
+	case "float":
+		return fmt.Sprintf("(VFloat %d)", math.Float64bits(v.F))
 	case "msg":
-		return "VMsg"
+		return fmt.Sprintf("(VMsg %d)", v.I)
 	}
 	panic("value kind")
 }
@@ -606,8 +672,13 @@ func (f FValue) String() string {
 			return fmt.Sprint(v.B)
 		case "enum":
 			return fmt.Sprintf("enum(%d)", v.I)
+		case "float":
+			if v.F == 0 && math.Signbit(v.F) {
+				return "-0"
+			}
+			return fmt.Sprint(v.F)
 		}
-		return "{}"
+		return fmt.Sprintf("{#%d}", v.I)
 	}
 	if f.IsMap {
 		parts := make([]string, len(f.List))
@@ -647,62 +718,126 @@ func pvalue(fd protoreflect.FieldDescriptor, v Value) protoreflect.Value {
 		return protoreflect.ValueOfBool(v.B)
 	case protoreflect.EnumKind:
 		return protoreflect.ValueOfEnum(protoreflect.EnumNumber(v.I))
+	case protoreflect.FloatKind:
+		return protoreflect.ValueOfFloat32(float32(v.F))
+	case protoreflect.DoubleKind:
+		return protoreflect.ValueOfFloat64(v.F)
 	case protoreflect.MessageKind:
-		return protoreflect.ValueOfMessage(dynamicpb.NewMessage(fd.Message()))
+		return protoreflect.ValueOfMessage(messageWithID(fd.Message(), v.I))
 	}
 	panic("unsupported kind " + fd.Kind().String())
 }
 
 type verdict struct {
 	Accept  bool
-	Problem string // non-validation error (compilation / runtime) or panic
+	Err     string // "" | "compile" (*protovalidate.CompilationError) | "runtime" (*protovalidate.RuntimeError) | "other" (another error, or a panic)
+	Problem string // text of the error / panic
 	Ids     []string
 }
 
-// validateField sets only field fd of a fresh message to fv and reports whether
-// the real validator raises a violation on that field.
-func validateField(val protovalidate.Validator, md protoreflect.MessageDescriptor, fd protoreflect.FieldDescriptor, fv FValue) (vd verdict) {
-	defer func() {
-		if r := recover(); r != nil {
-			vd = verdict{Problem: fmt.Sprintf("panic: %v", r)}
+// Coq term of type verdict (RulesDecl.v); ok=false when the model has no such outcome
+func (v verdict) Coq() (string, bool) {
+	switch v.Err {
+	case "":
+		if v.Accept {
+			return "VAccept", true
 		}
-	}()
-	msg := dynamicpb.NewMessage(md)
-	switch {
-	case fv.Absent:
-	case fv.IsMap:
-		m := msg.Mutable(fd).Map()
-		for i, v := range fv.List {
-			m.Set(protoreflect.ValueOfString(fv.Keys[i]).MapKey(), pvalue(fd.MapValue(), v))
-		}
-	case fv.Many:
-		l := msg.Mutable(fd).List()
-		for _, v := range fv.List {
-			l.Append(pvalue(fd, v))
-		}
-	default:
-		msg.Set(fd, pvalue(fd, fv.One))
+		return "VReject", true
+	case "compile":
+		return "(VError ECompile)", true
+	case "runtime":
+		return "(VError ERuntime)", true
 	}
-	err := val.Validate(msg)
+	return "", false
+}
+
+func (v verdict) String() string {
+	switch {
+	case v.Err != "":
+		return v.Err + " error"
+	case v.Accept:
+		return "accept"
+	}
+	return "reject"
+}
+
+// messageWithID: a message of the given type whose content is determined by id
+// (0 = empty; different ids = different messages), valid for the constraints
+// the well-known j5 types carry themselves
+func messageWithID(md protoreflect.MessageDescriptor, id int64) protoreflect.Message {
+	m := dynamicpb.NewMessage(md)
+	if id == 0 {
+		return m
+	}
+	set := func(name string, v protoreflect.Value) {
+		if fd := md.Fields().ByName(protoreflect.Name(name)); fd != nil {
+			m.Set(fd, v)
+		}
+	}
+	switch md.FullName() {
+	case "foo.v1.Bar":
+		set("x", protoreflect.ValueOfString(fmt.Sprintf("m%d", id)))
+	case "foo.v1.Choice":
+		set("a", protoreflect.ValueOfString(fmt.Sprintf("m%d", id)))
+	case "google.protobuf.Timestamp":
+		set("seconds", protoreflect.ValueOfInt64(id))
+	case "j5.types.date.v1.Date":
+		set("year", protoreflect.ValueOfInt32(int32(2000+id)))
+		set("month", protoreflect.ValueOfInt32(1))
+		set("day", protoreflect.ValueOfInt32(1))
+	case "j5.types.decimal.v1.Decimal":
+		set("value", protoreflect.ValueOfString(fmt.Sprint(id)))
+	case "j5.types.any.v1.Any":
+		set("type_name", protoreflect.ValueOfString("foo.v1.Bar"))
+		set("proto", protoreflect.ValueOfBytes([]byte{byte(id)}))
+	}
+	return m
+}
+
+// classify turns the validator's result into a verdict; count decides which
+// violations are about the field(s) under test
+func classify(err error, count func(els []*validate.FieldPathElement) bool) (vd verdict) {
 	if err == nil {
 		return verdict{Accept: true}
 	}
-	ve, ok := err.(*protovalidate.ValidationError)
-	if !ok {
-		return verdict{Problem: err.Error()}
+	var ve *protovalidate.ValidationError
+	if !errors.As(err, &ve) {
+		var ce *protovalidate.CompilationError
+		var re *protovalidate.RuntimeError
+		switch {
+		case errors.As(err, &ce):
+			return verdict{Err: "compile", Problem: err.Error()}
+		case errors.As(err, &re):
+			return verdict{Err: "runtime", Problem: err.Error()}
+		}
+		return verdict{Err: "other", Problem: err.Error()}
 	}
 	vd.Accept = true
 	for _, v := range ve.Violations {
-		els := v.Proto.GetField().GetElements()
 		// violations raised inside a populated message value (j5.types.date.v1.Date
 		// has constraints of its own) have longer paths and are not about this field
-		if len(els) == 1 && els[0].GetFieldNumber() == int32(fd.Number()) {
+		if count(v.Proto.GetField().GetElements()) {
 			vd.Accept = false
 			vd.Ids = append(vd.Ids, v.Proto.GetConstraintId())
 		}
 	}
 	sort.Strings(vd.Ids)
 	return vd
+}
+
+// validateField sets only field fd of a fresh message to fv and reports what
+// the real validator returns (violations on that field only).
+func validateField(val protovalidate.Validator, md protoreflect.MessageDescriptor, fd protoreflect.FieldDescriptor, fv FValue) (vd verdict) {
+	defer func() {
+		if r := recover(); r != nil {
+			vd = verdict{Err: "other", Problem: fmt.Sprintf("panic: %v", r)}
+		}
+	}()
+	msg := dynamicpb.NewMessage(md)
+	setField(msg, fd, fv)
+	return classify(val.Validate(msg), func(els []*validate.FieldPathElement) bool {
+		return len(els) == 1 && els[0].GetFieldNumber() == int32(fd.Number())
+	})
 }
 
 func setField(msg protoreflect.Message, fd protoreflect.FieldDescriptor, fv FValue) {
@@ -723,35 +858,20 @@ func setField(msg protoreflect.Message, fd protoreflect.FieldDescriptor, fv FVal
 	}
 }
 
-// validateMessage sets the first len(fvs) fields and reports whether the real
-// validator raises a violation on any of them (violations inside populated
-// message values do not count).
+// validateMessage sets the first len(fvs) fields and reports what the real
+// validator returns (violations on these fields only; violations inside
+// populated message values do not count).
 func validateMessage(val protovalidate.Validator, md protoreflect.MessageDescriptor, fvs []FValue) (vd verdict) {
 	defer func() {
 		if r := recover(); r != nil {
-			vd = verdict{Problem: fmt.Sprintf("panic: %v", r)}
+			vd = verdict{Err: "other", Problem: fmt.Sprintf("panic: %v", r)}
 		}
 	}()
 	msg := dynamicpb.NewMessage(md)
 	for i, fv := range fvs {
 		setField(msg, md.Fields().Get(i), fv)
 	}
-	err := val.Validate(msg)
-	if err == nil {
-		return verdict{Accept: true}
-	}
-	ve, ok := err.(*protovalidate.ValidationError)
-	if !ok {
-		return verdict{Problem: err.Error()}
-	}
-	vd.Accept = true
-	for _, v := range ve.Violations {
-		els := v.Proto.GetField().GetElements()
-		if len(els) == 1 && int(els[0].GetFieldNumber()) <= len(fvs) {
-			vd.Accept = false
-			vd.Ids = append(vd.Ids, v.Proto.GetConstraintId())
-		}
-	}
-	sort.Strings(vd.Ids)
-	return vd
+	return classify(val.Validate(msg), func(els []*validate.FieldPathElement) bool {
+		return len(els) == 1 && int(els[0].GetFieldNumber()) <= len(fvs)
+	})
 }
